@@ -641,7 +641,13 @@ func (c *specCtx) call(t *ast.CallExpr, n *SpecNode) Val {
 	case "fresh":
 		// fresh(p): reference allocated during this call
 		v := arg(0)
-		return boolVal(app("bvuge", v.L[0], c.old.alloc))
+		r := v.L[0]
+		if isInterface(v.T) {
+			// interface holding a pointer: the object it points to
+			r = app("iref", v.L[0])
+		}
+		// allocated after the old state and before the current one
+		return boolVal(and(app("bvuge", r, c.old.alloc), app("bvult", r, c.st.alloc)))
 	case "fnIs":
 		// fnIs(f, "pkg.Func"): the function value is (a closure of) this function;
 		// bound methods are "pkg.(*T).M$bound". Decided symbolically through fcode.
@@ -778,6 +784,9 @@ func (c *specCtx) call(t *ast.CallExpr, n *SpecNode) Val {
 	case "allocated":
 		// allocated(p): reference exists in the current state (allocated before now)
 		v := arg(0)
+		if isInterface(v.T) {
+			return boolVal(app("bvult", app("iref", v.L[0]), c.st.alloc))
+		}
 		return boolVal(app("bvult", v.L[0], c.st.alloc))
 	case "typeIs":
 		// typeIs(x, T): dynamic type of interface x is T
@@ -848,6 +857,10 @@ func (c *specCtx) call(t *ast.CallExpr, n *SpecNode) Val {
 		// buflen(b): number of bytes held by a *bytes.Buffer (model field)
 		b := arg(0)
 		return Val{T: types.Typ[types.Int], L: []string{c.x.heapRead(c.st, "bytes.Buffer.len", SBV64, b.L[0], "")}}
+	case "chanGotData":
+		// chanGotData(ch): some value received from ch so far was non-nil (slice, pointer or interface elements)
+		ch := arg(0)
+		return boolVal(c.x.heapRead(c.st, "chan.gotdata", SBool, ch.L[0], ""))
 	case "chanSent", "chanRecvd":
 		ch := arg(0)
 		reg := map[string]string{"chanSent": "chan.sent", "chanRecvd": "chan.recvd"}[fname]
